@@ -421,6 +421,7 @@ func (x *evalCtx) node(n *Node, sc *tScope) (string, int, int) {
 		var sb strings.Builder
 		for pass := 0; ; pass++ {
 			if pass > 40 {
+				refHorizonHit = true
 				return "", sUnspec, ctlNone // beyond the reference horizon
 			}
 			if n.Cond != nil {
@@ -591,7 +592,11 @@ func useName(n string) string {
 }
 
 // evalTemplate: single-file (string API) evaluation.
+// refHorizonHit: the last evalTemplate gave up on a @for loop after 40 passes (the program may not terminate).
+var refHorizonHit bool
+
 func evalTemplate(ns []*Node, data map[string]Val) (string, int) {
+	refHorizonHit = false
 	env := &tplEnv{files: map[string]*TplFile{"": {Nodes: ns}}}
 	return renderModel(env, "", data)
 }
